@@ -33,6 +33,8 @@ class Cls:
                     it = strip(src.args[0])
                     while it.k == 'call' and last(it.name) in ('into_iter', 'iter'):
                         it = strip(it.args[0])
+                    if it.k == 'call' and last(it.name) == 'chunks_exact' and len(it.args) == 2 and const_int(it.args[1]) == 16 and self.c(it.args[0], depth + 1) == 'DATA':
+                        return 'DATA[i]'      # block i of the data: `data.chunks_exact(16)` == `data[16i..16i+16]` for i in 0..len/16
                     return 'each(%s)' % self.c(it, depth + 1)
         if e.k == 'call':
             ln = last(e.name)
@@ -86,7 +88,7 @@ def mode_fn(cx, name, spec):
         return
     P = Prov(fn, cx.F); cn = Canon(fn, P); K = Cls(fn, P, cn)
     loops = fn.sccs()
-    nexts = [b for b in FR.calls_of(fn, 'next') if FR.arg_canon(fn, P, cn, b, 0) == 'into_iter(Range::Range{0, Div(len($data), 16)})']
+    nexts = [b for b in FR.calls_of(fn, 'next') if FR.arg_canon(fn, P, cn, b, 0) in ('into_iter(Range::Range{0, Div(len($data), 16)})', 'chunks_exact($data, 16)', 'into_iter(chunks_exact($data, 16))')]
     if len(nexts) != 1:
         cx.violate('I-MODES', name + '/block-loop', 'expected one loop over 0..len(data)/16 full blocks, found %d' % len(nexts), fn.loc())
         return
@@ -100,7 +102,10 @@ def mode_fn(cx, name, spec):
     for b, t in fn.calls():
         if b in loop and t['fn']['k'] == 'def' and last(t['fn']['name']) in ('push', 'extend_from_slice') and 'Vec' in t['fn']['name']:
             outs.append(K.c(norm(P.operand(t['args'][1], b, len(fn.blocks[b]['stmts'])))))
-    cx.add('I-MODES', name + '/out', outs == [spec['out']], 'per-block output is %s (got %s)' % (spec['out'], outs), fn.loc())
+    # `for b in x.iter() { out.push(*b) }` and `out.extend_from_slice(&x)` append the same bytes
+    def whole(s_):
+        return s_[5:-1] if s_.startswith('each(') and s_.endswith(')') else s_
+    cx.add('I-MODES', name + '/out', [whole(x) for x in outs] == [whole(spec['out'])], 'per-block output is %s (got %s)' % (spec['out'], outs), fn.loc())
     # feedback update inside the loop
     kind, want = spec['fb']
     got = []
